@@ -51,13 +51,13 @@ def generate(ctx, quick, want_theorems=True):
     stats["tlc_runs"].append({"module": "MC_MF_E1", "mode": "exhaustive", **r.summary()})
     e1 = r.printed
     stats["exhaustive_scenarios"] = len(e1)
-    if quick and len(e1) > 2000:
-        e1 = rnd.sample(e1, 2000)
+    if quick and len(e1) > 1200:
+        e1 = rnd.sample(e1, 1200)
         stats["exhaustive_replayed_all"] = False
     else:
         stats["exhaustive_replayed_all"] = True
     scns += e1
-    nsim = 400 if quick else 20000
+    nsim = 240 if quick else 20000
     r = tlc.run("MC_MF_sim", mode="sim", workers=8, num=max(1, nsim // 8), depth=40, seed=ctx.seed + 1, timeout=1200)
     if r.violation:
         return None, {"tlc_violation": r.violation, "module": "MC_MF_sim"}
@@ -94,7 +94,8 @@ def replay_cpp(ctx, scns):
         if exe is None:
             out[(hc, hk)] = {"build": err, "rets": {}, "scns": sel, "keyidx": keyidx}
             continue
-        rets = mfcpp.run_combo(exe, sel, keyidx)
+        # the calibrated combinations replay the histories 2^20 s later on the time axis (expected call sequences are unchanged)
+        rets = mfcpp.run_combo(exe, sel, keyidx, offset=(2.0 ** 20 if hk else 0.0))
         out[(hc, hk)] = {"build": None, "rets": rets, "scns": sel, "keyidx": keyidx}
     return out
 
@@ -172,13 +173,14 @@ class LongRec:
 
 
 def long_moves_python(mods, moves, unit):
+    """moves: (maxn, t0 seconds, target seconds, with control); max_dt_sec = maxn * unit"""
     runtime = mods["runtime"]
     out = []
     for maxn, t0, target, ctl in moves:
         ekf = LongRec(1 if ctl else 0, maxn * unit)
-        mf = runtime.ManagedFilter(ekf, start_time=t0 * unit, state=None, covariance=None)
-        mf.tick(target * unit, control=(1 if ctl else None))
-        ev = travel_events([("P", d, 0) for d in ekf.dts], t0 * unit, [], 0, target * unit, maxn * unit)
+        mf = runtime.ManagedFilter(ekf, start_time=t0, state=None, covariance=None)
+        mf.tick(target, control=(1 if ctl else None))
+        ev = travel_events([("P", d, 0) for d in ekf.dts], t0, [], 0, target, maxn * unit)
         for e in ev:
             e["dts"] = e["dts"][:5] + ["..."] + e["dts"][-3:] if len(e["dts"]) > 10 else e["dts"]
         out.append(ev)
